@@ -193,7 +193,7 @@ func transformFile(path string, subs []importSub, mono bool, ranges map[int]bool
 		return nil, nil, err
 	}
 	// cheap pre-filter
-	yields := os.Getenv("VERIF_NO_YIELD") == "" && (bytes.Contains(src, []byte("\tgo ")) || bytes.Contains(src, []byte(" go ")))
+	yields := os.Getenv("VERIF_NO_YIELD") == "" && (bytes.Contains(src, []byte("\tgo ")) || bytes.Contains(src, []byte(" go ")) || bytes.Contains(src, []byte("Unlock()")))
 	need := mono || len(ranges) > 0 || yields
 	for _, s := range subs {
 		if bytes.Contains(src, []byte(strconv.Quote(s.from))) {
@@ -349,25 +349,42 @@ func insertYields(f *ast.File) int {
 	yield := func() ast.Stmt {
 		return &ast.ExprStmt{X: &ast.CallExpr{Fun: &ast.SelectorExpr{X: ast.NewIdent("verifsimyield"), Sel: ast.NewIdent("Yield")}}}
 	}
-	fix := func(list []ast.Stmt) []ast.Stmt {
+	funcBody := map[*ast.BlockStmt]bool{}
+	fix := func(list []ast.Stmt, isFuncBody bool) []ast.Stmt {
 		var out []ast.Stmt
-		for _, st := range list {
+		for i, st := range list {
 			out = append(out, st)
 			if _, ok := st.(*ast.GoStmt); ok {
 				out = append(out, yield())
 				n++
+			}
+			// an Unlock / RUnlock statement (not a deferred one): the function goes on after the release - an explicit
+			// unlock point, a scheduling point of the unlock-yield pass only (DESIGN 11.17)
+			if es, ok := st.(*ast.ExprStmt); ok && !(isFuncBody && i == len(list)-1) { // not when the function ends there
+				if ce, ok := es.X.(*ast.CallExpr); ok && len(ce.Args) == 0 {
+					if se, ok := ce.Fun.(*ast.SelectorExpr); ok && (se.Sel.Name == "Unlock" || se.Sel.Name == "RUnlock") {
+						out = append(out, &ast.ExprStmt{X: &ast.CallExpr{Fun: &ast.SelectorExpr{X: ast.NewIdent("verifsimyield"), Sel: ast.NewIdent("UnlockPoint")}}})
+						n++
+					}
+				}
 			}
 		}
 		return out
 	}
 	ast.Inspect(f, func(nd ast.Node) bool {
 		switch x := nd.(type) {
+		case *ast.FuncDecl:
+			if x.Body != nil {
+				funcBody[x.Body] = true
+			}
+		case *ast.FuncLit:
+			funcBody[x.Body] = true
 		case *ast.BlockStmt:
-			x.List = fix(x.List)
+			x.List = fix(x.List, funcBody[x])
 		case *ast.CaseClause:
-			x.Body = fix(x.Body)
+			x.Body = fix(x.Body, false)
 		case *ast.CommClause:
-			x.Body = fix(x.Body)
+			x.Body = fix(x.Body, false)
 		}
 		return true
 	})
